@@ -4,6 +4,8 @@ Simulated races (mc/racesim.py) with race control's hand-over emulated by the sa
 (bulk_add of the metrics carried by TaskFinished / BenchmarkComplete into an in-memory store).  Deviation-bounded exploration of
 message / wake-up / thread / preemption orders; at the end the store is compared with the request log of the simulated cluster.
 """
+import datetime
+
 from mc import explore, loadgen, par, racesim
 from mc.core import Result
 
@@ -15,7 +17,8 @@ RULE = (
     "post-processing fires inside a task), S11 (composite operation with two named dependent sub-requests), S12 (the last task ends exactly on a "
     "worker wake-up), S13 (completed-by with a sibling request in flight), S15 (40 s of short requests across the periodic post-processing; "
     "default schedule) x layouts {1x1, 1x2, 2x1} x "
-    "downsampling {1, 2} x sample queue {default, 2}; schedules: every sequence of message deliveries, wake-ups, thread steps, time advances "
+    "downsampling {1, 2} x sample queue {default, 2}; the Elasticsearch-backed store's buffer under every sequence of <= 4 (6) put / "
+    "flush operations; schedules: every sequence of message deliveries, wake-ups, thread steps, time advances "
     "and handler preemptions within the deviation bound. non-trivial = execution with at least one deviation; distinct = (configuration, choices)"
 )
 ASSUMPTIONS = [
@@ -244,6 +247,81 @@ def differential(res):
             )
 
 
+def check_es_store_buffer(res, maxlen):
+    """the Elasticsearch-backed metrics store (not the default) buffers records and ships them with every flush: for every sequence of
+    put / flush(refresh=False) (what the post-processor issues after every round) / flush() followed by close(), every record is
+    bulk-indexed exactly once, in order"""
+    import itertools
+
+    s = racesim.setup()
+    m = s["metrics"]
+
+    class FakeClient:
+        def __init__(self):
+            self.indexed = []
+
+        def bulk_index(self, index, items):
+            self.indexed.extend(d["value"] for d in items)
+
+        def exists(self, index):
+            return True
+
+        def template_exists(self, name):
+            return False
+
+        def put_template(self, name, template):
+            pass
+
+        def refresh(self, index):
+            pass
+
+        def create_index(self, index):
+            pass
+
+    class Factory:
+        def __init__(self, cfg):
+            pass
+
+        def create(self):
+            return FakeClient()
+
+    class Templates:
+        def __init__(self, cfg):
+            pass
+
+        def metrics_template(self):
+            return "{}"
+
+    cfg = racesim.make_config(["localhost"], 1)
+    for n in range(0, maxlen + 1):
+        for word in itertools.product(("put", "flush-no-refresh", "flush"), repeat=n):
+            store = m.EsMetricsStore(cfg, client_factory_class=Factory, index_template_provider_class=Templates)
+            v = None
+            k = 0
+            try:
+                store.open("verif-race", datetime.datetime(2026, 1, 1), "verif", "c", "external", create=True)
+                for w in word:
+                    if w == "put":
+                        k += 1
+                        store.put_value_cluster_level("service_time", float(k), "ms", task="a", operation="a-op", operation_type="search",
+                                                      sample_type=m.SampleType.Normal, absolute_time=1000.0 + k, relative_time=float(k))
+                    else:
+                        store.flush(refresh=w == "flush")
+                store.close()
+                got = store._client.indexed
+                if got != [float(i) for i in range(1, k + 1)]:
+                    v = ("es-store-records", f"{k} records were put, the store bulk-indexed values {got}")
+            except Exception as e:  # noqa
+                v = ("es-store-raises", f"{type(e).__name__}: {e}")
+            res.case(
+                case_repr={"es_store_operations": list(word) + ["close"]} if res.sample_now(41) else None,
+                nontrivial_key=("es-store", word) if k and len(word) > k else None,
+                outcome_key=("es-store", k, v[0] if v else "ok"),
+            )
+            if v:
+                res.violation(f"samples:{v[0]}", f"operations {list(word) + ['close']}: {v[1]}", {"es_store": list(word)})
+
+
 def run(tier, seed):
     cfgs = configs(tier)
     res = explore.explore_parallel(check_race, cfgs, 1, seed=seed)
@@ -255,6 +333,7 @@ def run(tier, seed):
     r2 = explore.explore_parallel(check_race, deep, 2, seed=seed, max_exec_per_subtree=150 if tier == "quick" else 40000)
     res.merge(r2)
     differential(res)
+    check_es_store_buffer(res, 4 if tier == "quick" else 6)
     res.extra["configurations"] = len(cfgs)
     res.extra["configurations_at_bound_2"] = len(deep)
     res.bound_completed = "1 on every configuration, 2 on configurations_at_bound_2" + ("" if res.exhaustive else " (capped)")
@@ -263,6 +342,9 @@ def run(tier, seed):
 
 def replay(data):
     res = Result()
+    if "es_store" in data:
+        check_es_store_buffer(res, len(data["es_store"]))
+        return [v for lst in res.violations.values() for v in lst]
     c = data["cfg"]
     if data.get("differential"):
         differential(res)
